@@ -798,6 +798,7 @@ func (b *Builder) Position(o interface{}, x int) {
 		b.setErr(fmt.Errorf("%T does not support position, only type bit", o))
 	} else {
 		i.Position = x
+		i.posSet = true
 	}
 }
 
